@@ -137,6 +137,18 @@ CHECKS.update({
         note="Only directory enumeration order and file boundaries are simulated; file contents are real temporary files. Ordering inside introspection lists is not compared."),
 })
 
+CHECKS.update({
+    "C18": dict(
+        level="exploration", design="DESIGN.md section 5 C18",
+        technique="deterministic simulation: envelope invariant monitored on every response of every check + seeded corruption of the call (text, operation name, variables, context) + error-coercer completion schedules",
+        text="Every response produced in any run of any check is checked against the envelope invariant. Dedicated runs corrupt the "
+             "call (token-level text mutations, deep nesting, unicode / bytes spellings, arbitrary operation names, variables and "
+             "contexts, several anonymous operations) and cook the engine with an error_coercer suspending at scheduler gates: "
+             "execute must return a well-formed response, refuse without running anything where the property says so, and use "
+             "each coercer result exactly once in error order.",
+        note="The C lexer/parser is a stub: nothing is claimed about libgraphqlparser's robustness against arbitrary bytes."),
+})
+
 NOT_APPLICABLE = {
     "C10": "pure synchronous functions of one value (scalar coercion laws): no schedule, clock, fault, interleaving or history "
            "for a simulator to control; deciding them is boundary-value enumeration, a different technique (DESIGN.md section 2)",
@@ -144,7 +156,7 @@ NOT_APPLICABLE = {
            "coroutine is awaited before validation and the statement has no history clause (DESIGN.md section 2)",
 }
 
-PENDING_REASON = "check not built yet in this round (planned, see DESIGN.md section 5); not claimed until it is"
+PENDING_REASON = "not claimed"
 
 
 def main():
